@@ -35,6 +35,8 @@ def run(ctx, mod, path):
             same = "AGREE" if i == m else "DIFFER"
             print("  [%s/%s] %s\n     impl : %s\n     model: %s\n     recorded impl: %s ; what: %s" %
                   (cfg, same, c[:400], i[:400], m[:400], str(e.get("impl"))[:200], e.get("what", "")))
-            if i != m or e.get("what"):
+            # still failing = the implementation still differs from the model on this input, or still gives the
+            # output that was recorded as the property violation
+            if i != m or (e.get("what") and i == e.get("impl")):
                 rc = 1
     return rc
